@@ -41,6 +41,9 @@ def run(prog, rep, tier):
     S = Sym(prog, inline=inline_helpers(prog, "sempler.generators"))
     summ, _ = run_function(S, f)
     message_safe(rep, S, f, "GUARD.message")
+    # sizes and targets must be successive draws of *one* generator: two generators built from the same seed repeat each other
+    from .C13 import rng_rules
+    rng_rules(rep, prog, f)
     raises = [r for r in S.select("raise", qname=Q) if r.exctype == "ValueError"]
     draws = [c for c in S.select("call", qname=Q) if c.callkind == "method" and c.target == ".choice"]
     found = {}
